@@ -160,6 +160,8 @@ def build_ann(s):
         if len(s) > 2 and s[2] == "|":
             return build_ann(s[1]) | None
         return typing.Optional[build_ann(s[1])]
+    if k == "fwd":  # a forward reference: the NAME of a builtin type as a string ("int", "str")
+        return s[1]
     if k == "int":
         return int
     if k == "str":
